@@ -27,7 +27,8 @@ SHRINK_LISTS = [('batches', 'connecting'), ('batches', 'connected'),
 EXPECTED_PROBES = ['len_125', 'len_126', 'len_65535', 'len_65536',
                    'compressed_frame', 'compress_false', 'bad_arg_refused',
                    'refused_after_close', 'sent_in_closing', 'close_long_reason',
-                   'adversarial_mask', 'transient_write_error']
+                   'adversarial_mask', 'transient_write_error',
+                   'after_earlier_connection']
 
 BOUNDARY = [0, 1, 125, 126, 127, 65535, 65536, 65537]
 BAD = ['text_bytes', 'binary_str', 'ping_str', 'pong_str', 'ping_long',
@@ -158,6 +159,11 @@ def make_case(family, i, rng, tier):
                                                    'enobufs', 'timeout']),
                                'partial': rng.choice([1, 3, 7])}
     case['fold'] = rng.choice([None, None, ' ', '\t'])
+    if family == 'seeded' and not case.get('write_fault') and \
+            rng.random() < 0.12:
+        # the same object had an earlier connection whose server did / did
+        # not accept permessage-deflate; the judged connection is the second
+        case['earlier'] = rng.choice(['negotiated', 'declined'])
     case['server_closes'] = 'closing' in batches or rng.random() < 0.3
     if not case['server_closes']:
         case['app_close'] = _close_call(rng)
@@ -200,6 +206,15 @@ def build(case):
                             connect={'ping_rate': 0, 'poll': 2})
     if case.get('write_fault'):
         sc['conns'][0]['faults'] = [dict(case['write_fault'], op='sendall')]
+    if case.get('earlier'):
+        sc['ws'] = dict(sc.get('ws') or {}, compress=True)
+        first = {'server': S.handshake_steps(
+            [b'Sec-WebSocket-Extensions: permessage-deflate']
+            if case['earlier'] == 'negotiated' else ()) + [S.eof(after=1003)]}
+        sc['conns'] = [first] + sc['conns']
+        sc['n_connects'] = 2
+        for rule in sc.get('app') or []:
+            rule['when'] = dict(rule['when'], attempt=1)
     if mask == 'payload':
         # keys equal to the first payload bytes of the calls, in call order
         keys = []
@@ -259,6 +274,12 @@ def execute(case):
     res.stats.update(tr.world.stats)
     res.sim_us = tr.world.now
     res.digest = tr.digest()
+    if case.get('earlier'):
+        res.stats['probe:after_earlier_connection'] += 1
+        sep = [e.index for e in tr.events if e.name == '--reconnect--']
+        if sep:
+            tr.calls = [c for c in tr.calls if c.at_event is not None and
+                        c.at_event > sep[-1]]
     names = tr.names()
     negotiated = bool(case.get('negotiated'))
     st = tr.world.socks[-1] if tr.world.socks else None
